@@ -359,7 +359,7 @@ func runC11(res *result) {
 		if b, err := os.ReadFile(filepath.Join(*repoDir, "lib/go/go.sum")); err == nil {
 			os.WriteFile(filepath.Join(goMod, "go.sum"), b, 0o644)
 		}
-		cmd := exec.Command("go", "build", "-gcflags=-e", "./...")
+		cmd := exec.Command("go", "build", "-trimpath", "-gcflags=-e", "./...")
 		cmd.Dir = goMod
 		cmd.Env = append(os.Environ(), "GOFLAGS=-mod=mod", "GOPROXY=off", "GOSUMDB=off", "GOTOOLCHAIN=local")
 		out, err := cmd.CombinedOutput()
